@@ -1,7 +1,7 @@
 (* C06 — the schema parser: what is proved about acceptance.  Statements only. *)
 From Coq Require Import List.
 From GQL.model Require Import Base Utf8 Lexer Ast Parser Prog ParseQuery ParseSchema.
-From GQL.proofs Require Import ParserTotal ParseSchemaTotal.
+From GQL.proofs Require Import ParserTotal ParseSchemaTotal NumberGrammar TypeRoundtrip TokenStream JsonRoundtrip ParseComplete ParseSchemaComplete.
 Import ListNotations.
 
 (* A schema document is returned only after the parser has been handed the end-of-input token, with
@@ -30,3 +30,51 @@ Example C06_nonvacuous :
   end
   /\ parseSchema dev_none 0 0 false (b "scalar A }") = PErr (PSyntax 1 10).
 Proof. vm_compute. repeat split; reflexivity. Qed.
+
+(* Completeness and determinism against the grammar, layout-free (the type-system counterpart of C05's
+   theorem).  A type-system document is a list of items in source order: type definitions and
+   extensions of the six kinds (descriptions, implemented interfaces, directives, field definitions
+   with argument definitions, union members, enum values, input fields with defaults), schema
+   definitions and extensions, directive definitions (arguments, `repeatable`, locations).  flat_item
+   is the token sequence the grammar assigns to an item; toks d input ts says the lexer reads input as
+   exactly ts and then the end.  Then the parser returns a document, and that document is the items
+   sorted into the five lists of a SchemaDocument (sdoc_of), each definition carrying the built-in mark
+   of the source, positions erased: every derivable document is accepted, and a text with these tokens
+   is read as nothing else.  item_ok: what a tree must satisfy to be in the grammar (constant default
+   values and directive arguments, an extension adds something, a definition kind has only its own
+   parts, no description is the word `implements` (deviation F_S3 would take it for the keyword),
+   extensions of interfaces implement nothing where deviation F_S4 forbids it, a schema definition
+   has operation types unless F_S1 admits none) and the size bounds against the fuel. *)
+Theorem C06_grammatical_documents_are_parsed : forall d items input fuel ix bi,
+  Forall (item_ok d fuel fuel) items -> (length items < fuel)%nat -> (items <> [] \/ d F_S7 = true) ->
+  toks d input (flat_map flat_item items) ->
+  exists doc' s, parseSchemaWith d fuel 0 ix bi input = (POk doc', s)
+                 /\ erase_sdoc doc' = erase_sdoc (with_builtin bi (sdoc_of items)).
+Proof. exact parseSchema_complete. Qed.
+Print Assumptions C06_grammatical_documents_are_parsed.
+
+(* one production on its own: a type definition or extension of any kind, in front of any continuation
+   that starts like a definition *)
+Theorem C06_type_definitions_are_parsed : forall d F fuel ext desc x s rest, def_ok d F fuel ext x -> dfol rest ->
+  stream d s ((Name, kw_of x.(df_kind)) :: (Name, x.(df_name)) :: flat_defbody x ++ rest) ->
+  exists x' s1, run d (parseTypeDef d fuel x.(df_kind) (kw_of x.(df_kind)) ext desc) F s = (x', s1)
+                /\ erase_def x' = erase_def (mkDef x.(df_kind) desc x.(df_name) x.(df_dirs) x.(df_ifaces) x.(df_fields) x.(df_types) x.(df_enums) x.(df_pos) false)
+                /\ stream d s1 rest.
+Proof. exact parse_typedef. Qed.
+Print Assumptions C06_type_definitions_are_parsed.
+
+(* the hypotheses are satisfiable: `scalar A "d" type B implements I @x { f(a: Int = 1): [B!] }` *)
+Example C06_grammar_nonvacuous :
+  let fld := mkFieldDef [] (b "f") [mkArgDef [] (b "a") (Some (mkValue VInt (b "1") [] pos0)) (NamedT (b "Int") false pos0) [] pos0]
+                        None (ListT (NamedT (b "B") true pos0) false pos0) [] pos0 in
+  let items := [IDef (mkDef KScalar [] (b "A") [] [] [] [] [] pos0 false);
+                IDef (mkDef KObject (b "d") (b "B") [mkDir (b "x") [] pos0] [b "I"] [fld] [] [] pos0 false)] in
+  Forall (item_ok dev_none 9 9) items
+  /\ match parseSchemaWith dev_none 9 0 0 false (b "scalar A ""d"" type B implements I @x { f(a: Int = 1): [B!] }") with
+     | (POk doc, _) => erase_sdoc doc = erase_sdoc (with_builtin false (sdoc_of items))
+     | _ => False
+     end.
+Proof.
+  split; [|vm_compute; reflexivity].
+  repeat constructor; cbn; try lia; try discriminate; try reflexivity; auto.
+Qed.
